@@ -37,10 +37,10 @@ def compile_all(cases, chunk=25):
     with concurrent.futures.ProcessPoolExecutor(max_workers=WORKERS) as ex:
         for res in ex.map(_compile_many, chunks):
             out.extend(res)
-    # a wall-clock alarm on a loaded machine can fire spuriously: a timeout counts only when it repeats alone
+    # a timeout counts only when it repeats with the case run alone under a longer limit
     for i, v in enumerate(out):
         if v.get('exc') == 'Timeout':
-            out[i] = fe_fuzz.classify([tuple(s) for s in cases[i]], limit_s=90)
+            out[i] = fe_fuzz.confirm_timeout(cases[i], v)
     return out
 
 
@@ -318,6 +318,15 @@ def to_request(expr):
     return {'op': 'fe.params', 'ty': conv(ty, True), 'rx': [[k, v] for k, v in rx.items()]}
 
 
+def _dump_len(v):
+    """a list length as stored: integral (booleans included) as a decimal string; anything else (not storable since
+    List checks its lengths -- kept so that a regression shows as a disagreement) in the literal encoding"""
+    import numbers
+    if v is None:
+        return None
+    return str(int(v)) if isinstance(v, numbers.Integral) else enc_value(v)
+
+
 def dump_ir_type(t):
     """the real IR type in the driver's dump format"""
     from stone.ir import data_types as dt
@@ -338,14 +347,13 @@ def dump_ir_type(t):
     if isinstance(t, dt.Timestamp):
         return {'k': 'Timestamp', 'fmt': t.format}
     if isinstance(t, dt.List):
-        return {'k': 'List', 'elem': dump_ir_type(t.data_type),
-                'min': None if t.min_items is None else enc_value(t.min_items),
-                'max': None if t.max_items is None else enc_value(t.max_items)}
+        return {'k': 'List', 'elem': dump_ir_type(t.data_type), 'min': _dump_len(t.min_items), 'max': _dump_len(t.max_items)}
     if isinstance(t, dt.Map):
         return {'k': 'Map', 'key': dump_ir_type(t.key_data_type), 'val': dump_ir_type(t.value_data_type)}
     if isinstance(t, dt.DataType):
         return {'k': t.name}
-    # not a type at all (the List(3) hole): the stored value; the lexer's null token is an opaque object
+    # not a type at all (cannot happen since List / Map check their element argument; kept so that a regression
+    # shows as a disagreement, not as an exception here): the stored value
     return enc_value(t)
 
 
@@ -443,10 +451,11 @@ def suite_params(ck, report='C01', cap=None):
         else:
             ck.disagree('fe.params', {'expr': e, 'ctx': ctx}, rv, mv)
         ck.hist('fe.params.legal', '%s/%s' % ('legal' if mv['legal'] else 'illegal', rv['out']))
-        # the statement proved about the model, evaluated on the grid: legal => accepted; accepted and illegal => a hole
+        # the statements proved about the model, evaluated on the grid: legal => accepted; accepted and illegal => a
+        # hole; never an exception
         if (mv['legal'] and mv['out'] != 'ok') or (mv['out'] == 'ok' and not mv['legal'] and not mv['hole']) or \
-                (mv['out'] == 'crash' and not mv['crashsite'] and not _nested_crash(rq['ty'])):
-            ck.disagree('fe.params.theorem', {'expr': e}, 'legal_accepted / ok_imp_legal_partial / no_crash_partial', mv)
+                mv['out'] == 'crash':
+            ck.disagree('fe.params.theorem', {'expr': e}, 'legal_accepted / ok_imp_legal_partial / instantiate_no_crash', mv)
         else:
             ck.agree('fe.params.theorem')
         if report == 'C01' and not void_field:
@@ -465,12 +474,7 @@ def suite_params(ck, report='C01', cap=None):
     ck.sample({'suite': 'fe.params', 'expr': cases[len(cases) // 3][0]})
 
 
-def _nested_crash(t):
-    """the crash comes from a nested reference (the flags of the reply describe the outermost one only)"""
-    return any('ty' in a for a in t['pos']) or any('ty' in a for _k, a in t['kw'])
-
-
-HOLE_NAMES = ['element-not-a-type', 'non-integral-length', 'non-string-pattern', 'bound-beyond-far-end-of-width']
+HOLE_NAMES = ['non-string-pattern', 'bound-beyond-far-end-of-width']
 
 
 def hole_shape(expr, rq, mv):
